@@ -240,7 +240,7 @@ impl Family for Inject {
         let n = rng.range(1, 4);
         let mut out = vec![];
         for _ in 0..n {
-            let kind = rng.below(13);
+            let kind = match rng.below(14) { 13 => 4, k => k };
             let (is_ip, bytes): (bool, Vec<u8>) = match kind {
                 0 => (true, rb(rng, 60)),
                 1 => {
@@ -259,7 +259,7 @@ impl Family for Inject {
                 3 => {
                     // extreme length fields: total_length / udp length
                     let mut f = valid_udp(&rng.bytes(8), UDP_PORT);
-                    let v = *rng.pick(&[0u16, 1, 19, 20, 21, 27, 28, 29, 0xffff, 0x7fff]);
+                    let v = if rng.coin(1, 3) { rng.below(41) as u16 } else { *rng.pick(&[0u16, 1, 19, 20, 21, 27, 28, 29, 0xffff, 0x7fff]) };
                     let at = if rng.coin(1, 2) { 2 } else { 24 };
                     f[at] = (v >> 8) as u8;
                     f[at + 1] = v as u8;
@@ -274,7 +274,9 @@ impl Family for Inject {
                     f[6] = (w >> 8) as u8;
                     f[7] = w as u8;
                     if rng.coin(1, 2) {
-                        let v = *rng.pick(&[20u16, 21, 27, 28, 29, 36, 0xffff]);
+                        // every total length around and below the header size (a guard that compares with the wrong
+                        // unit lets 5..19 through to the reassembly arithmetic), plus the classic boundaries
+                        let v = if rng.coin(1, 2) { rng.below(41) as u16 } else { *rng.pick(&[20u16, 21, 27, 28, 29, 36, 0xffff]) };
                         f[2] = (v >> 8) as u8;
                         f[3] = v as u8;
                     }
